@@ -1008,6 +1008,25 @@ fn iochurn(x: &mut Exec) -> Res {
             }
         });
     }
+    // failing connects (refused) beside the sessions: their descriptors are created, registered and released on
+    // the error path while the sessions open sockets
+    let probers = x.rng.below(3) as usize;
+    for pi in 0..probers {
+        let p_co = x.rng.chance(2, 3);
+        let e3 = err.clone();
+        x.spawn(&format!("prober{}", pi), p_co, move |act| {
+            for k in 0..rounds * 2 {
+                act.call("connect-refused", k as u64);
+                let r = TcpStream::connect("127.0.0.1:1");
+                act.ret("connect-refused", k as u64, r.is_ok() as u64);
+                if r.is_ok() {
+                    *e3.lock().unwrap() = Some("connect to 127.0.0.1:1 succeeded".into());
+                    return;
+                }
+            }
+        });
+    }
+    desc += &format!("probers(refused connects)={}", probers);
     x.desc = desc;
     let r = x.wait_all();
     io_verdict(x, r)?;
